@@ -442,3 +442,65 @@ Lemma survivors_thm : forall (edges : list (nat * nat)), acyclicb edges = true -
     (forall x, x < nobjs g -> alive s x = true -> ~ In x (flog s)) /\
     fin_order_ok g (rev (flog s)).
 Proof. intros edges Hac g H pre post Hwf Hp. exact (typed_survivors edges Hac g H Hwf pre post Hp). Qed.
+
+(* ---------- the connection of a departed sender is released only when nothing is borrowed ---------- *)
+Lemma scan_from_and : forall chs d b,
+  scan_from andb chs d b = (d || existsb fst chs, b || existsb (fun c => Nat.ltb 0 (snd c)) chs).
+Proof.
+  induction chs as [|[cd cb] r IH]; intros d b; cbn [scan_from existsb fst snd].
+  - rewrite !orb_false_r. reflexivity.
+  - destruct ((d || cd) && (b || Nat.ltb 0 cb)) eqn:E.
+    + apply andb_true_iff in E; destruct E as [E1 E2].
+      rewrite !orb_assoc, E1, E2. reflexivity.
+    + rewrite IH, !orb_assoc. reflexivity.
+Qed.
+
+(* computation over the generated decision rows: the early exit of the scan is `&&` *)
+Lemma brk_code_is_and : brk_code = andb.
+Proof. vm_compute. reflexivity. Qed.
+Lemma decisions_as_modelled : remove_if_no_borrows = true /\ keep_if_data_or_borrows = true.
+Proof. vm_compute. split; reflexivity. Qed.
+
+Lemma scan_spec : forall chs, scan chs = (existsb fst chs, existsb (fun c => Nat.ltb 0 (snd c)) chs).
+Proof. intros chs. unfold scan. rewrite brk_code_is_and, scan_from_and. reflexivity. Qed.
+
+Lemma existsb_false_all : forall {A} (f : A -> bool) l, existsb f l = false -> forall x, In x l -> f x = false.
+Proof.
+  intros A f l E x Hin. destruct (f x) eqn:Ef; [|reflexivity].
+  assert (existsb f l = true) by (apply existsb_exists; exists x; split; assumption). congruence.
+Qed.
+
+Lemma expired_removed_no_borrow : forall chs c m, poll_expired chs c m = XRemove ->
+  (forall ch, In ch chs -> snd ch = 0) /\ fst (nth c chs (false, 0)) = false.
+Proof.
+  intros chs c m. unfold poll_expired. destruct (nth c chs (false, 0)) as [cd cb] eqn:En.
+  destruct (Nat.eqb cb m); [discriminate|]. destruct cd; [discriminate|].
+  rewrite scan_spec. destruct decisions_as_modelled as [-> _].
+  destruct (existsb (fun c0 => Nat.ltb 0 (snd c0)) chs) eqn:E; [discriminate|]. intros _.
+  split; [|reflexivity]. intros ch Hin.
+  pose proof (existsb_false_all _ _ E ch Hin) as Hf. cbn beta in Hf. apply Nat.ltb_ge in Hf. lia.
+Qed.
+
+Lemma keep_on_disconnect_iff : forall chs,
+  keep_on_disconnect chs = true <-> exists ch, In ch chs /\ (fst ch = true \/ 0 < snd ch).
+Proof.
+  intros chs. unfold keep_on_disconnect. rewrite scan_spec. destruct decisions_as_modelled as [_ ->].
+  rewrite orb_true_iff, !existsb_exists. split.
+  - intros [[ch [Hin Hf]]|[ch [Hin Hf]]]; exists ch; split; try assumption; [left; exact Hf|right; apply Nat.ltb_lt; exact Hf].
+  - intros [ch [Hin [Hf|Hf]]]; [left|right]; exists ch; split; try assumption. apply Nat.ltb_lt; exact Hf.
+Qed.
+
+(* the clause "... and no delivered, unreceived chunk of ANOTHER channel is discarded" is false of the code *)
+Definition expired_keeps_data_full : Prop :=
+  forall chs c m, poll_expired chs c m = XRemove -> forall ch, In ch chs -> fst ch = false.
+Lemma expired_keeps_data_refuted : ~ expired_keeps_data_full.
+Proof.
+  intros H. specialize (H [(true, 0); (false, 0)] 1 2).
+  assert (E : poll_expired [(true, 0); (false, 0)] 1 2 = XRemove) by (vm_compute; reflexivity).
+  specialize (H E (true, 0) (or_introl eq_refl)). discriminate H.
+Qed.
+
+(* why the early exit must be `&&`: with `||` the scan stops at the first channel that merely has
+   data and never sees the borrow on a later channel *)
+Lemma scan_or_misses_later_borrow : scan_from orb [(true, 0); (false, 1)] false false = (true, false).
+Proof. reflexivity. Qed.
